@@ -181,3 +181,11 @@ func (p *Pollard) VerifDump() (nodes []VerifNode, mapped map[Hash]uint64, mapLen
 	}
 	return nodes, mapped, len(p.NodeMap)
 }
+
+// VerifRootIdxOnRow wraps rootIdxOnRow.
+func VerifRootIdxOnRow(numLeaves uint64, row uint8) int { return rootIdxOnRow(numLeaves, row) }
+
+// VerifIsRootPositionOnRowTotalRows wraps isRootPositionOnRowTotalRows.
+func VerifIsRootPositionOnRowTotalRows(position, numLeaves uint64, row, forestRows uint8) bool {
+	return isRootPositionOnRowTotalRows(position, numLeaves, row, forestRows)
+}
